@@ -11,6 +11,7 @@ from .origin import Origins, show, walk
 from .util import Vars, reaches_without
 from . import p_c01
 
+TECHNIQUE = 'static analysis: sibling cross-check of event languages (speculative executor vs interpreter) on rustc MIR; dominance/cut queries for snapshot and roll-back; threshold agreement by origin slicing'
 LEVEL = "other"
 EXPLANATION = (
     "The speculative executor (opt_execute) and the interpreter (execute_one) are hand-written siblings: for each of "
